@@ -355,6 +355,32 @@ def string_enums(rep):
             events.append({'ev': 'probe', 'enum': vec.__name__, 'code': ','.join(trial), 'known': False, 'outcome': 'invalid',
                            'listoutcome': lo})
             rep.case('%s|%s' % (vec.__name__, ','.join(trial)))
+    # names that are length-prefixed strings inside a list entry (OpenSSH certificate options / extensions: string name,
+    # string data): a name that only STARTS like a known one, or is cut short, is another name - kept verbatim or refused
+    import struct
+    from cryptoparser.ssh import key as ssh_key
+    for vec in (ssh_key.SshCertExtensionVector, ssh_key.SshCertCriticalOptionVector, ssh_key.SshCertConstraintVector):
+        for m in ssh_key.SshCertExtensionName:
+            code = m.value.code
+            for text in (code + '2', code + '-x', code[:-1], 'x' + code, code.upper()):
+                entry = struct.pack('>I', len(text)) + text.encode('ascii') + struct.pack('>I', 0)
+                data = struct.pack('>I', len(entry)) + entry
+                try:
+                    v = vec.parse_exact_size(data)
+                    items = list(v)
+                    name = getattr(items[0], 'extension_name', None) if len(items) == 1 else None
+                    if len(items) != 1:
+                        lo = 'dropped'
+                    elif getattr(getattr(name, 'value', None), 'code', name) != text:
+                        lo = 'redirected'
+                    elif bytes(v.compose()) != data:
+                        lo = 'reencoded'
+                    else:
+                        lo = 'ok'
+                except Exception as e:  # pylint: disable=broad-except
+                    lo = 'rejected' if classify_exc(e) == 'invalid' else 'error'
+                events.append({'ev': 'probe', 'enum': vec.__name__, 'code': text, 'known': False, 'outcome': 'invalid', 'listoutcome': lo})
+                rep.case('%s|%s' % (vec.__name__, text))
     return events
 
 
